@@ -13,12 +13,11 @@
   of one frame or an error, whatever the transport does; the read loop turns every error into
   `terminate`. The state machine therefore only distinguishes "a whole response" from "an error".
 
-  WHAT FAILS. `no_stuck` does not hold in full on the current code: `reconnect` can install a new
-  connection after `Close()` has set `c.closed` and read `c.conn` (a pending call past its
-  `c.closed.Load()` check, e.g. at the yield point `cli.beforeReconnect`); that connection is never closed
-  and its two goroutines stay. `close_race_leaks_goroutines` is the trace, `C11_no_stuck_full` the
-  statement that fails, `no_stuck` the part that holds; `Lemmas/CliCertPatched.lean` proves the full
-  statement for the code with a two-line patch.
+  HISTORY. Two defects found with this model have been repaired in the code and are now witnesses about
+  OLD parameter valuations: `old_close_race_leaks_goroutines` (before 9b690e3 `reconnect` could install
+  a connection after `Close()` had read `c.conn`; it was never closed) and `old_recovers_needs_settled`
+  (before 2c3eae7 the write loop reported a failed write before terminating the connection, so the call
+  issued right after the failed one could still fail with the same error).
 
   Scope as for C10: theorems about the modelled state machine; goroutine reclamation, sockets and the
   Go scheduler are observed by the harness (`lts.cli`), not proved.
@@ -32,7 +31,7 @@ theorem cliconn_closed : closedUnder (sys current) codec certCurrent := CliCert.
 
 /-- 1. No panic: neither a send on a closed channel nor a nil dereference in `Close`. -/
 theorem no_crash {s : St} (h : Reachable (sys current) s) : s.panic = 0 := by
-  have := (CliCert.badPartial_false (CliCert.current_inv h)).2.2.2.1
+  have := (CliCert.bad_false (CliCert.current_inv h)).2.2.2.1
   simpa [badPanic] using this
 
 /-- 2. A pending call never hangs once it has a reason to return: whenever the caller's context is
@@ -40,7 +39,7 @@ theorem no_crash {s : St} (h : Reachable (sys current) s) : s.panic = 0 := by
     (no waiting for the peer). -/
 theorem no_hang {s : St} (h : Reachable (sys current) s) (hk : kActive s = true)
     (hr : s.kctx = true ∨ (s.has = true ∧ s.cause ≠ 0)) : stepInt current s ≠ [] := by
-  have hb := (CliCert.badPartial_false (CliCert.current_inv h)).2.2.2.2.2.2.2.1
+  have hb := (CliCert.bad_false (CliCert.current_inv h)).2.2.2.2.2.2.2.1
   intro he
   have : badHang current s = true := by
     simp only [badHang, quiescent, hk, he, List.isEmpty_nil, Bool.and_true, Bool.true_and,
@@ -52,40 +51,49 @@ theorem no_hang {s : St} (h : Reachable (sys current) s) (hk : kActive s = true)
 
 /-- 3. A single call hands its request to a writer at most four times (`retry := 3`). -/
 theorem transmissions_le_4 {s : St} (h : Reachable (sys current) s) : s.ntx ≤ 4 := by
-  have := (CliCert.badPartial_false (CliCert.current_inv h)).2.2.2.2.1
+  have := (CliCert.bad_false (CliCert.current_inv h)).2.2.2.2.1
   simpa [badTx] using this
 
 /-- 4. Once the client is closed, calls fail and do not dial: a call that takes the mutex after
     `Close()` has set `c.closed` neither returns a response nor reaches the dial. -/
 theorem closed_stays_closed {s : St} (h : Reachable (sys current) s) (hb : s.born = true) :
     s.kp ≠ .retOk ∧ s.kp ≠ .rc5 := by
-  have := (CliCert.badPartial_false (CliCert.current_inv h)).2.2.2.2.2.1
+  have := (CliCert.bad_false (CliCert.current_inv h)).2.2.2.2.2.1
   simp only [badAfterClose, hb, Bool.true_and, Bool.or_eq_false_iff, beq_eq_false_iff_ne] at this
   exact this
 
-/-- 5. Recovery. A call that starts on an open client whose earlier faults have been fully processed
-    (`settled`: no connection goroutine is between detecting an I/O error and cancelling the
-    connection context), and during which no fault, no cancellation and no `Close()` occurs (`clean`),
-    does not end in an error: whatever state the previous faults left behind — dead connection,
-    nil connection, late responses — it dials if needed and gets its own response (`no_stale_delivery`). -/
+/-- 5. Recovery. A call that starts on an open client while the read loop is not in the middle of
+    processing a failed `Recv` (`settled`: not between the failed `Recv` and the `cancel` of its
+    `terminate` — a call that starts there overlaps the detection of the fault), and during which no
+    fault, no cancellation and no `Close()` occurs (`clean`), does not end in an error: whatever
+    state the previous faults left behind — dead connection, nil connection, late responses, a write
+    error just reported to the previous call — it dials if needed and gets its own response
+    (`no_stale_delivery`). `recovers_needs_settled` shows that the precondition on the read loop
+    cannot be dropped. -/
 theorem recovers {s : St} (h : Reachable (sys current) s) (hc : s.clean = true) : s.kp ≠ .retErr := by
-  have := (CliCert.badPartial_false (CliCert.current_inv h)).2.2.2.2.2.2.1
+  have := (CliCert.bad_false (CliCert.current_inv h)).2.2.2.2.2.2.1
   simpa [badRecover, hc] using this
 
-/-- 6a. Goroutines of the current connection. When nothing is running (no call, no `Close()` in
-    progress, no enabled step of the client's goroutines) and the connection has been cancelled or the
-    client closed, the read loop and the write loop have ended — unless a connection was installed
-    after `Close()` had set `c.closed` (`raced`, see `close_race_leaks_goroutines`). -/
-theorem no_stuck {s : St} (h : Reachable (sys current) s) (hb : badStuck current s = true) :
-    s.raced = true := by
-  have := (CliCert.badPartial_false (CliCert.current_inv h)).2.2.2.2.2.2.2.2.2
-  simpa [hb] using this
+/-- 6a. Goroutines of the current connection, in full: when nothing is running (no call, no `Close()`
+    in progress, no enabled step of the client's goroutines) and the connection has been cancelled or
+    the client closed, the read loop and the write loop have ended. -/
+theorem no_stuck {s : St} (h : Reachable (sys current) s) : badStuck current s = false :=
+  (CliCert.bad_false (CliCert.current_inv h)).2.2.2.2.2.2.2.2.2.1
+
+/-- the full statement of "a closed client / a cancelled connection leaves no goroutine behind". -/
+def C11_no_stuck_full : Prop := ∀ s, Reachable (sys current) s → badStuck current s = false
+
+theorem no_stuck_full : C11_no_stuck_full := fun _ h => no_stuck h
+
+/-- no connection is ever installed (and kept) after `Close()` has set `c.closed`. -/
+theorem no_conn_after_close {s : St} (h : Reachable (sys current) s) : s.raced = false :=
+  (CliCert.bad_false (CliCert.current_inv h)).2.2.2.2.2.2.2.2.2.2
 
 /-- 6b. Hand-off. Whenever `reconnect` drops a connection (`c.conn = nil`), that connection is closed
     and either fully terminated or inside the `terminate` of a `Close()` that holds a pointer to it. -/
 theorem handoff_ok {s : St} (h : Reachable (sys current) s) (hk : s.kp = .rc4) (hh : s.has = true) :
     handoffOk s = true := by
-  have := (CliCert.badPartial_false (CliCert.current_inv h)).2.2.2.2.2.2.2.2.1
+  have := (CliCert.bad_false (CliCert.current_inv h)).2.2.2.2.2.2.2.2.1
   simpa [badHandoff, hk, hh] using this
 
 /-- 6c. Goroutines of every connection the client has let go of, however many there are: from the
@@ -110,31 +118,6 @@ theorem never_partial_response (max : Nat) (m : Bytes) (hm : Framed m) :
    fun rest sched hmax hp he => by
      obtain ⟨_, h, _⟩ := C07.recv_exact max m rest sched hm hmax hp he
      exact h⟩
-
-/-! ### the full statement of "no goroutines left behind", and why it fails now -/
-
-/-- the full property on the system that is not cut at `raced`. -/
-def C11_no_stuck_full : Prop :=
-  ∀ s, Reachable (sysAll current) s → badStuck current s = false
-
-/-- `Close()` while a call is about to dial: the call's connection is installed after `Close()` has
-    read `c.conn == nil`; the call returns, the client is closed, nothing can move, and the read loop
-    (in `Recv`) and the write loop (in its select) of the new connection are still there. -/
-theorem close_race_leaks_goroutines :
-    ∃ s, Reachable (sysAll current) s ∧ badStuck current s = true ∧ s.cclosed = true ∧ s.cp = .cDone ∧
-      s.rp = .r1 ∧ s.wp = .ws :=
-  ⟨endOf (sysAll current) [0, 0, 0, 0, 1, 1, 1, 0, 0, 0, 0, 0],
-    reachable_endOf _ (by decide +kernel), by decide +kernel, by decide +kernel, by decide +kernel,
-    by decide +kernel, by decide +kernel⟩
-
-theorem no_stuck_full_fails : ¬ C11_no_stuck_full := by
-  intro h
-  obtain ⟨s, hs, hb, _⟩ := close_race_leaks_goroutines
-  rw [h s hs] at hb; cases hb
-
-/-- the race itself is reachable in the system the certificate is about. -/
-theorem close_race_reachable : ∃ s, Reachable (sys current) s ∧ s.raced = true :=
-  ⟨endOf (sys current) [0, 0, 0, 0, 2, 0], reachable_endOf _ (by decide +kernel), by decide +kernel⟩
 
 /-! ### non-vacuity -/
 
@@ -162,11 +145,35 @@ example : ∃ s, Reachable (sys current) s ∧ s.kp = .rc4 ∧ s.has = true :=
 /-- a closed client whose goroutines have all ended. -/
 example : ∃ s, Reachable (sys current) s ∧ s.cclosed = true ∧ s.cp = .cDone ∧ s.has = true ∧
     connEnded s = true ∧ s.kp = .idle :=
-  ⟨endOf (sys current) [0, 0, 0, 0, 0, 4, 3, 3, 0, 0, 0, 0],
+  ⟨endOf (sys current) [0, 0, 0, 0, 2, 1, 0, 0, 0, 0],
     reachable_endOf _ (by decide +kernel), by decide +kernel, by decide +kernel, by decide +kernel,
     by decide +kernel, by decide +kernel⟩
 
 /-! ### the behaviour before the repairs, and why `recovers` needs `settled` -/
+
+/-- before 9b690e3: `reconnect` does not re-check `c.closed` after installing the new connection. -/
+def beforeRecheckFix : Params := { current with recheckAfterDial := false }
+
+/-- `Close()` while a call is about to dial: the call's connection is installed after `Close()` has
+    read `c.conn == nil`; the call returns, the client is closed, nothing can move, and the read loop
+    (in `Recv`) and the write loop (in its select) of the new connection are still there. -/
+theorem old_close_race_leaks_goroutines :
+    ∃ s, Reachable (sys beforeRecheckFix) s ∧ badStuck beforeRecheckFix s = true ∧ s.cclosed = true ∧
+      s.cp = .cDone ∧ s.rp = .r1 ∧ s.wp = .ws :=
+  ⟨endOf (sys beforeRecheckFix) [0, 0, 0, 0, 1, 1, 1, 0, 0, 0, 0, 0],
+    reachable_endOf _ (by decide +kernel), by decide +kernel, by decide +kernel, by decide +kernel,
+    by decide +kernel, by decide +kernel⟩
+
+/-- before 2c3eae7: `writeloop` does `req.err <- err` before `c.terminate(err)`. -/
+def beforeWriteErrFix : Params := { current with terminateBeforeErr := false }
+
+/-- Before 2c3eae7 `recovers` failed although the read loop was settled: the call that follows a
+    call failed by a fatal write error finds the connection still live (the write loop has reported
+    but not yet cancelled) and fails with the old error although nothing fails during it. -/
+theorem old_recovers_needs_settled :
+    ∃ s, Reachable (sys beforeWriteErrFix) s ∧ s.clean = true ∧ s.kp = .retErr :=
+  ⟨endOf (sys beforeWriteErrFix) [0, 0, 0, 0, 0, 0, 0, 1, 0, 5, 1, 0, 0, 2, 0, 0, 2, 0],
+    reachable_endOf _ (by decide +kernel), by decide +kernel, by decide +kernel⟩
 
 /-- before 03f0b5a: `doRountrip` dials only when `c.conn == nil`. -/
 def beforeDeadConnFix : Params := { current with reuseDeadConn := true }
@@ -195,14 +202,14 @@ def beforeErrChFix : Params := { current with errChBuffered := false }
 
 /-- the write loop blocks forever on `req.err <- err` once the sender has left. -/
 theorem old_unbuffered_errch_leaks :
-    ∃ s, Reachable (sys beforeErrChFix) s ∧ badStuck beforeErrChFix s = true ∧ s.raced = false :=
-  ⟨endOf (sys beforeErrChFix) [0, 0, 0, 0, 0, 0, 0, 0, 0, 0, 4, 0, 0, 0, 0, 0],
-    reachable_endOf _ (by decide +kernel), by decide +kernel, by decide +kernel⟩
+    ∃ s, Reachable (sys beforeErrChFix) s ∧ badStuck beforeErrChFix s = true :=
+  ⟨endOf (sys beforeErrChFix) [0, 0, 0, 0, 0, 0, 0, 0, 0, 0, 3, 5, 1, 0, 0, 0],
+    reachable_endOf _ (by decide +kernel), by decide +kernel⟩
 
-/-- `recovers` without the `settled` precondition is false of the current code: a call that starts
-    after the write loop has reported a fatal write error to the previous call but before it has
-    cancelled the connection context (`req.err <- err` precedes `c.terminate(err)` in `writeloop`)
-    still sees a live connection, and fails with that error although nothing fails during the call. -/
+/-- `recovers` without the `settled` precondition is false of the current code, and this is not a
+    defect: a call that starts after `Recv` has returned a fatal error to the read loop but before
+    the read loop has cancelled the connection context overlaps the detection of the fault; it still
+    sees a live connection and fails with that error. -/
 def cleanWithoutSettled : Params := { current with cleanNeedsSettled := false }
 
 theorem recovers_needs_settled :
